@@ -11,7 +11,7 @@ RULES = {
     'C04.R3': 'a removal must not leave a decision without children (a childless decision is flagged as terminal)',
     'C04.R4': 'every call of Tree::merge_child_with_parent (asserts exactly one child) is preceded by the removal of the node\'s other children and guarded by the single-survivor conditions',
 }
-FLOORS = {'C04.R1': 5, 'C04.R2': 15, 'C04.R3': 5, 'C04.R4': 4}
+FLOORS = {'C04.R1': 5, 'C04.R2': 15, 'C04.R3': 5, 'C04.R4': 5}
 EXPLANATION = 'Input-dimension / common-output-dimension preservation, absence of the childless-decision state, absence of the merge assertion panic, for all histories.'
 DOES_NOT_DECIDE = 'panics reachable through unwrap/indexing inside ndarray/minilp; numeric content of node functions'
 ALLOWED_WRITERS = {
@@ -150,3 +150,4 @@ def run(ctx):
     r2(ctx)
     prune.check_childless(ctx, 'C04.R3')
     r4(ctx)
+    prune.check_root_edges_kept(ctx, 'C04.R4')
